@@ -206,7 +206,7 @@ class Ctx:
             raise Broken("TLC timeout on %s/%s" % (module, cfgfile))
         if rc == 10 and expect_violation and "Postcondition" in out:
             return res  # trace rejected (POSTCONDITION false)
-        if rc != 0 and not (expect_violation and rc in (12, 13)) and not simulate:
+        if rc != 0 and not (expect_violation and rc in (11, 12, 13)) and not simulate:
             raise Broken("TLC failed rc=%d on %s/%s:\n%s" % (rc, module, cfgfile, out[-3000:]))
         if simulate and rc not in (0,):
             # simulation ends through num= limit with rc 0; anything else is an error
